@@ -217,7 +217,7 @@ theorem PCOK.of_same {c d : Ctl} {S} (h : PCOK c.byIP c.ipBy S) (hs : SamePC c d
 theorem podEvent_pc (c : Ctl) (old : Option Pod) (p : Pod) (k : PodEvKind) (S : String → String → Prop)
     (h : PCOK c.byIP c.ipBy S) (hne : ∀ k', ¬ S "" k')
     (hadd : k = .add → ∀ ip', ¬ S ip' p.key)
-    (hstable : ∀ ip', S ip' p.key → p.ip = "" ∨ p.ip = ip') :
+    (hstable : ¬ (k ≠ .del ∧ podOK p = true) → ∀ ip', S ip' p.key → p.ip = "" ∨ p.ip = ip') :
     PCOK (podEvent c old p k).1.byIP (podEvent c old p k).1.ipBy
       (fun ip' k' => if k' = p.key then (k ≠ .del ∧ podOK p = true ∧ ip' = p.ip) else S ip' k') := by
   -- a cached-worthy pod whose key is already cached under `ip`
@@ -309,9 +309,9 @@ theorem podEvent_pc (c : Ctl) (old : Option Pod) (p : Pod) (k : PodEvKind) (S : 
     have hipeq : p.ip ≠ "" → ip = p.ip := by
       intro hne'; rw [← hipv]; simp [hne']
     -- wherever the key is cached, it is under `ip`
-    have hat : ∀ ip', S ip' p.key → ip' = ip := by
-      intro ip' hs
-      cases hstable ip' hs with
+    have hat : ¬ (k ≠ .del ∧ podOK p = true) → ∀ ip', S ip' p.key → ip' = ip := by
+      intro hnot ip' hs
+      cases hstable hnot ip' hs with
       | inl hz =>
         have hl := (h.inv _ _).mpr ((h.mem ip' _).mpr hs)
         rw [← hipv]
@@ -320,7 +320,7 @@ theorem podEvent_pc (c : Ctl) (old : Option Pod) (p : Pod) (k : PodEvKind) (S : 
     cases k with
     | del =>
       simp only [if_true]
-      exact hdel c ip (SamePC.refl c) hat (by simp)
+      exact hdel c ip (SamePC.refl c) (hat (by simp)) (by simp)
     | add =>
       simp only [reduceCtorEq, if_false]
       have htw := takeWaiting_pc c ip
@@ -336,7 +336,7 @@ theorem podEvent_pc (c : Ctl) (old : Option Pod) (p : Pod) (k : PodEvKind) (S : 
       · simp only [hok, Bool.not_true, Bool.false_eq_true, if_false]
         exact hadd' _ ip _ htw (by simp) hok (hipeq (podOK_ip p hok))
       · simp only [hok, Bool.not_false, if_true]
-        exact hdel _ ip htw hat (fun hh => hok hh.2)
+        exact hdel _ ip htw (hat (fun hh => hok hh.2)) (fun hh => hok hh.2)
 
 /-! ### the other handlers leave the pod cache alone -/
 
@@ -440,9 +440,11 @@ theorem runEvents_pc (l : List Ev) (c : Ctl) (h : ∀ e ∈ l, e.notPod) :
 /-- distinct pods of the store have distinct keys (`namespace/name`; Kubernetes names have no `/`) -/
 def PodKeysOK (pods : List Pod) : Prop := ∀ a ∈ pods, ∀ b ∈ pods, a.key = b.key → a = b
 
-/-- Kubernetes never changes the IP it assigned to a pod -/
+/-- a pod's IP may change (the `ipByPods` cleanup of `addPod` moves it) - only not in the same update in which the
+    pod stops being cached-worthy (not ready, terminating, evicted): `deleteIP` then looks under the NEW IP and the
+    old entry stays.  Kubernetes never changes an assigned pod IP. -/
 def PodIPStable (c : Ctl) (v : Pod) : Prop :=
-  ∀ o, findPod c.pods v.ns v.name = some o → o.ip = "" ∨ v.ip = "" ∨ v.ip = o.ip
+  ∀ o, findPod c.pods v.ns v.name = some o → o.ip = "" ∨ v.ip = "" ∨ v.ip = o.ip ∨ (v.phase ≠ "F" ∧ podOK v = true)
 
 theorem key_of_names (a b : Pod) (h1 : a.ns = b.ns) (h2 : a.name = b.name) : a.key = b.key := by
   simp [Pod.key, h1, h2]
@@ -572,6 +574,30 @@ theorem holds_no_empty (pods : List Pod) (k : String) : ¬ Holds pods "" k := by
   intro ⟨p, _, _, hip, hok⟩
   exact podOK_ip p hok hip
 
+/-- a pod of the store with the key of `v` is the stored version of `v` -/
+theorem old_of_key (c : Ctl) (v : Pod) (hk : PodKeysOK c.pods)
+    (hk1 : PodKeysOK (upsertBy (fun x => x.ns = v.ns ∧ x.name = v.name) v c.pods)) :
+    ∀ p ∈ c.pods, p.key = v.key → findPod c.pods v.ns v.name = some p := by
+  intro p hp hpk
+  have hv1 : v ∈ upsertBy (fun x => decide (x.ns = v.ns ∧ x.name = v.name)) v c.pods := mem_upsertBy_self _ v c.pods
+  have hname : p.ns = v.ns ∧ p.name = v.name := by
+    by_cases hn : p.ns = v.ns ∧ p.name = v.name
+    · exact hn
+    · have hp1 := mem_upsertBy_of_mem (fun x => decide (x.ns = v.ns ∧ x.name = v.name)) v p c.pods hp (by simpa using hn)
+      have := hk1 p hp1 v hv1 hpk
+      subst this
+      exact ⟨rfl, rfl⟩
+  cases hf : findPod c.pods v.ns v.name with
+  | none =>
+    have := List.find?_eq_none.mp hf p hp
+    simp [hname.1, hname.2] at this
+  | some o =>
+    have ho := List.find?_some hf
+    have hom := List.mem_of_find?_eq_some hf
+    simp only [Bool.decide_and, Bool.and_eq_true, decide_eq_true_eq] at ho
+    have : o = p := hk o hom p hp ((key_of_names o v ho.1 ho.2).trans hpk.symm)
+    rw [this]
+
 /-- a Pod add/update handled to quiescence keeps the pod cache a function of the pods -/
 theorem pod_write_podCache (c : Ctl) (v : Pod) (c' : Ctl) (hph : v.phase ≠ "F") (hstep : stepC c (.pod v) = some c')
     (h : PodCacheOK c) (hk : PodKeysOK c.pods)
@@ -618,14 +644,17 @@ theorem pod_write_podCache (c : Ctl) (v : Pod) (c' : Ctl) (hph : v.phase ≠ "F"
       have := hold p hp hpk
       rw [haddk hka] at this; cases this)
     (by
-      intro ip' ⟨p, hp, hpk, hpi, hok⟩
+      intro hnot ip' ⟨p, hp, hpk, hpi, hok⟩
       have hf := hold p hp hpk
       cases hst p hf with
       | inl hz => exact absurd hz (podOK_ip p hok)
       | inr hh =>
         cases hh with
         | inl hz => exact Or.inl hz
-        | inr he => exact Or.inr (he.trans hpi))
+        | inr hh =>
+          cases hh with
+          | inl he => exact Or.inr (he.trans hpi)
+          | inr hokv => exact absurd ⟨hkind, hokv.2⟩ hnot)
   have hpods := podEvent_pods c1 old v kind
   have hre := runEvents_pc ((podEvent c1 old v kind).2 ++ []) (podEvent c1 old v kind).1 (by
     intro e he
@@ -657,7 +686,7 @@ theorem pod_removed_podCache (c : Ctl) (ns name : String) (evp o : Pod)
   have hkey : o.key = evp.key := key_of_names o evp (ho.1.trans hevp.1.symm) (ho.2.trans hevp.2.symm)
   have hpc := podEvent_pc c1 none evp .del (Holds c.pods) h (holds_no_empty c.pods) (by intro hh; cases hh)
     (by
-      intro ip' ⟨p, hp, hpk, hpi, hok⟩
+      intro _ ip' ⟨p, hp, hpk, hpi, hok⟩
       have : p = o := hk p hp o hom (hpk.trans hkey.symm)
       subst this
       cases hst with
